@@ -347,14 +347,15 @@ theorem fillLoop_total (c : Consts) (hc : ConstsOk c) (intr : Option Nat) (fuel 
                 · rw [if_neg hb3]
                   exact ⟨by simp, hinv1, by intro ofs cap h; simp at h⟩
 
-/-- the invariant of `WithSidebands`: the parent reader is sound, `pos ≤ cap ≤ MAX_LINE_LEN`, and an
-open window `pos < cap` lies inside the line held by the parent's buffer -/
+/-- the invariant of `WithSidebands`: the parent reader is sound, `pos, cap ≤ MAX_LINE_LEN`, and an
+open window `pos < cap` lies inside the line held by the parent's buffer (`read_line_to_string`
+leaves `cap = 0 < pos`, which counts as closed) -/
 def SB.Ok (c : Consts) (s : SB) : Prop :=
-  s.r.Inv2 c ∧ s.pos ≤ s.cap ∧ s.cap ≤ c.maxLineLen ∧
-    (s.pos = s.cap ∨ (s.cap ≤ s.r.buf.len ∧ s.cap ≤ s.r.buf.front.length))
+  s.r.Inv2 c ∧ s.pos ≤ c.maxLineLen ∧ s.cap ≤ c.maxLineLen ∧
+    (s.pos ≥ s.cap ∨ (s.cap ≤ s.r.buf.len ∧ s.cap ≤ s.r.buf.front.length))
 
 theorem SB.new_ok (c : Consts) (r : Reader) (h : r.Inv2 c) (handler : Bool) (intr : Option Nat) :
-    SB.Ok c ⟨r, handler, 0, 0, [], intr⟩ := ⟨h, Nat.le_refl _, Nat.zero_le _, Or.inl rfl⟩
+    SB.Ok c ⟨r, handler, 0, 0, [], intr⟩ := ⟨h, Nat.zero_le _, Nat.zero_le _, Or.inl (Nat.le_refl _)⟩
 
 theorem fillFuel_ge_measure (r : Reader) : fillFuel r ≥ r.measure + 1 := by
   unfold fillFuel Reader.measure; split <;> omega
@@ -380,7 +381,7 @@ theorem fillBuf_total (c : Consts) (hc : ConstsOk c) (s : SB) (h : SB.Ok c s) :
       obtain ⟨d1, d2, d3⟩ := d ofs cap rfl
       simp only [bufSlice]
       rw [if_pos ⟨by omega, d1, d2⟩]
-      refine ⟨by simp, ⟨b, by simp, d3, Or.inr ⟨d1, d2⟩⟩, ?_⟩
+      refine ⟨by simp, ⟨b, by simp only; omega, d3, Or.inr ⟨d1, d2⟩⟩, ?_⟩
       intro bs hbs
       simp only [FillBuf.ok.injEq] at hbs
       rw [← hbs]
@@ -406,7 +407,7 @@ theorem sbConsume_total (c : Consts) (hc : ConstsOk c) (s : SB) (h : SB.Ok c s) 
   obtain ⟨hinv, hpc, hcm, hwin⟩ := h
   unfold sbConsume
   rw [if_neg (by omega)]
-  refine ⟨_, rfl, hinv, Nat.min_le_right _ _, hcm, ?_⟩
+  refine ⟨_, rfl, hinv, Nat.le_trans (Nat.min_le_right _ _) hcm, hcm, ?_⟩
   rcases hwin with h0 | hw
   · left; simp only; omega
   · right; exact hw
@@ -423,7 +424,7 @@ theorem sbRead_total (c : Consts) (hc : ConstsOk c) (s : SB) (h : SB.Ok c s) (n 
   | err e => exact ⟨by simp, b⟩
   | ok rem =>
     obtain ⟨hinv, hpc, hcm, hwin⟩ := b
-    refine ⟨by simp, hinv, Nat.min_le_right _ _, hcm, ?_⟩
+    refine ⟨by simp, hinv, Nat.le_trans (Nat.min_le_right _ _) hcm, hcm, ?_⟩
     rcases hwin with h0 | hw
     · left; simp only; omega
     · right; exact hw
@@ -431,7 +432,9 @@ theorem sbRead_total (c : Consts) (hc : ConstsOk c) (s : SB) (h : SB.Ok c s) (n 
 /-- the `BufRead`/`Read` contract on the amounts passed to `consume` -/
 def SBCall.Legal (c : Consts) : SBCall → Prop
   | .consume amt => amt + c.maxLineLen < 18446744073709551616
-  | _ => True
+  | .fill => True
+  | .read _ => True
+  | _ => False     -- the line-wise calls assert `cap == 0`: see `SBCall.LegalAt` / `runSB_total_at`
 
 theorem sbCall_total (c : Consts) (hc : ConstsOk c) (s : SB) (h : SB.Ok c s) (k : SBCall) (hk : k.Legal c) :
     (sbCall c s k).1 ≠ .panic ∧ SB.Ok c (sbCall c s k).2 := by
@@ -459,6 +462,9 @@ theorem sbCall_total (c : Consts) (hc : ConstsOk c) (s : SB) (h : SB.Ok c s) (k 
     | err e => exact ⟨by simp, b⟩
     | ok bs => exact ⟨by simp, b⟩
 
+  | peekData => exact absurd hk (by simp [SBCall.Legal])
+  | readData => exact absurd hk (by simp [SBCall.Legal])
+  | readString => exact absurd hk (by simp [SBCall.Legal])
 theorem runSB_total (c : Consts) (hc : ConstsOk c) (calls : List SBCall) (hlegal : ∀ k ∈ calls, k.Legal c)
     (s : SB) (h : SB.Ok c s) :
     (∀ x ∈ (runSB c calls s).1, x ≠ .panic) ∧ SB.Ok c (runSB c calls s).2 := by
